@@ -24,6 +24,7 @@ type question struct {
 	flags         questionFlags
 	finishMsgSend chan struct{}        // closed after attempting to send the Finish message
 	called        [][]capnp.PipelineOp // paths to called clients
+	paramCaps     map[exportID]uint32  // export references held by the call's parameters
 }
 
 // questionFlags is a bitmask of which events have occurred in a question's
@@ -243,8 +244,10 @@ func (c *Conn) newPipelineCallMessage(msg rpccp.Message, tgt questionID, transfo
 	}
 	clients, states := extractCapTable(m)
 	c.mu.Lock()
-	// TODO(soon): save param refs
-	_, err = c.fillPayloadCapTable(payload, clients, states)
+	refs, err := c.fillPayloadCapTable(payload, clients, states)
+	if q := c.questions[qid]; q != nil {
+		q.paramCaps = refs
+	}
 	c.mu.Unlock()
 	releaseList(clients).release()
 	if err != nil {
